@@ -157,7 +157,8 @@ func (s *GenState) clone() *GenState {
 // GenBlock creates block num on fork tag.
 func GenBlock(r *lib.RNG, tag int, num uint64, parent []byte, o GenOpts, st *GenState) *Block {
 	b := &Block{Num: num, Tag: tag, Hash: HashBytes(tag, num), Parent: parent, Time: 1_600_000_000 + num*12 + uint64(tag)}
-	if num == 0 || (!o.AlwaysTrace && r.Intn(100) < o.EmptyProb) {
+	// (with MakeToken block 1 always has the transaction that creates the token address)
+	if num == 0 || (!o.AlwaysTrace && !(o.MakeToken && num == 1) && r.Intn(100) < o.EmptyProb) {
 		return b
 	}
 	ntx := r.Range(1, max(1, o.MaxTxs))
